@@ -64,48 +64,49 @@ def ofGraph (g : Graph) : Json :=
 
 structure St where
   w : World
-  s : Store
-  tmp : Nat
+  sw : SWorld
 
-def cbmId : String := "CBM"
-def tmpId (n : Nat) : String := "\u0001tmp-" ++ toString n
-def snapId (k : Nat) : String := "\u0001snap-" ++ toString k
+def names : Names := ⟨"CBM", fun n => "\u0001tmp-" ++ toString n, fun k => "\u0001snap-" ++ toString k⟩
 def P : Plans := FimVerif.Gen.CbmCfg.plans
+def st0 : St := ⟨World.init [], ⟨Store.empty, 0, 0⟩⟩
 
 def reply (st : St) (e a : Option Err) (srcOk : Bool) (val : Json := .null) : St × Json :=
-  let v := st.s.view cbmId
+  let v := st.sw.s.view names.cbm
   (st, ok (Json.mkObj [("r", .str (match e with | none => "ok" | some e => e.kind)), ("cbm", ofGraph v), ("val", val),
-                        ("agree", .bool (e == a && v.sameAs st.w.cbm)), ("src", .bool srcOk)]))
+                        ("agree", .bool (e == a && v.sameAs st.w.cbm && st.sw.next == st.w.next)), ("src", .bool srcOk),
+                        -- temporary graphs left behind in the store (by merges that raised)
+                        ("stray", Json.num (JsonNumber.fromNat ((st.sw.s.nodes.map (·.gid)).eraseDups.filter
+                            (fun g => g.startsWith "\u0001tmp-")).length))]))
 
 def handle (st : St) (j : Json) : St × Json :=
   match j with
-  | .arr #[.str "reset"] => reply ⟨World.init [], Store.empty, 0⟩ none none true
+  | .arr #[.str "reset"] => reply st0 none none true
   | .arr #[.str "merge", spec, ord] =>
     match getAdm spec, getStrs ord with
     | some a, some order =>
       -- the source model lies in the store next to the combined model (put there by the harness' session)
-      let s0 := if (st.s.view a.id).sameAs a.g then st.s else st.s.load a
-      let r := s0.mergeAdm P ⟨cbmId, tmpId st.tmp, a.id⟩ order
+      let sw0 := if (st.sw.s.view a.id).sameAs a.g then st.sw else { st.sw with s := st.sw.s.load a }
+      let r := sstep P names sw0 (.merge a.id order)
       -- the order is only meaningful when the common-node loop is reached
       let order' := if sameMembers order (common st.w.cbm a.g) then order else common st.w.cbm a.g
       let ra := mergeOrd st.w.cbm a order'
-      reply ⟨{ st.w with cbm := ra.2 }, r.2, st.tmp + 1⟩ r.1 ra.1 ((r.2.view a.id).sameAs a.g)
+      reply ⟨{ st.w with cbm := ra.2 }, r.2⟩ r.1 ra.1 ((r.2.s.view a.id).sameAs a.g)
     | _, _ => (st, err "bad-args")
   | .arr #[.str "unmerge", .str gid] =>
-    let r := st.s.unmergeAdm P cbmId gid
+    let r := sstep P names st.sw (.unmerge gid)
     let ra := unmerge st.w.cbm gid
-    reply ⟨{ st.w with cbm := ra.2 }, r.2, st.tmp⟩ r.1 ra.1 true
+    reply ⟨{ st.w with cbm := ra.2 }, r.2⟩ r.1 ra.1 true
   | .arr #[.str "snapshot"] =>
-    let r := execM ⟨cbmId, snapId st.w.next, cbmId⟩ [] st.s P.snapshot
+    let r := sstep P names st.sw .snapshot
     let ra := snapshot st.w
-    reply ⟨ra.2, r.2, st.tmp⟩ r.1 ra.1 true (match r.1 with | none => Json.num (JsonNumber.fromNat st.w.next) | some _ => .null)
+    reply ⟨ra.2, r.2⟩ r.1 ra.1 true (match r.1 with | none => Json.num (JsonNumber.fromNat st.sw.next) | some _ => .null)
   | .arr #[.str "rollback", k] =>
     match k.getNat? with
     | .ok k =>
-      let r := execR ⟨cbmId, snapId k, cbmId⟩ st.s P.rollback
+      let r := sstep P names st.sw (.rollback k)
       let ra := rollback st.w k
-      reply ⟨ra.2, r.2, st.tmp⟩ r.1 ra.1 true
+      reply ⟨ra.2, r.2⟩ r.1 ra.1 true
     | .error _ => (st, err "bad-args")
   | _ => (st, err "bad-request")
 
-def main : IO Unit := runState (⟨World.init [], Store.empty, 0⟩ : St) handle
+def main : IO Unit := runState st0 handle
